@@ -96,6 +96,27 @@ def _nreal(res):
     return len([a for a in res["atoms"] if not a["name"].startswith("V")])
 
 
+def shown(sysd, rn):
+    """residue name as written in the files: several residue definitions may go under one name (polyply keeps one
+    template and size per distinct residue graph, not per name)"""
+    return sysd.get("alias", {}).get(rn, rn)
+
+
+def alias_residues(rng, sysd):
+    """let a second, different residue definition appear under the name of the first one; returns the pair or None"""
+    keys = sorted(sysd["residues"])
+    pairs = [(a, b) for a in keys for b in keys if a < b and
+             ([x["name"] for x in sysd["residues"][a]["atoms"]], sysd["residues"][a]["bonds"]) !=
+             ([x["name"] for x in sysd["residues"][b]["atoms"]], sysd["residues"][b]["bonds"])]
+    used = {rn for mt in sysd["moltypes"] for rn in mt["res"]}
+    pairs = [(a, b) for a, b in pairs if a in used and b in used]
+    if not pairs:
+        return None
+    a, b = rng.choice(pairs)
+    sysd.setdefault("alias", {})[b] = a
+    return a, b
+
+
 def render_moltype(sysd, mt):
     lines = ["[ moleculetype ]", "%s 1" % mt["name"], "[ atoms ]"]
     first = []
@@ -105,7 +126,7 @@ def render_moltype(sysd, mt):
         r = sysd["residues"][rn]
         first.append(k)
         for j, a in enumerate(r["atoms"]):
-            row = "%d %s %d %s %s %d %.3f" % (k + j, a["atype"], mt.get("resids", range(1, 10 ** 6))[ri], rn, a["name"], k + j, a["charge"])
+            row = "%d %s %d %s %s %d %.3f" % (k + j, a["atype"], mt.get("resids", range(1, 10 ** 6))[ri], shown(sysd, rn), a["name"], k + j, a["charge"])
             if a["mass"] is not None:
                 row += " %r" % a["mass"]
             lines.append(row)
@@ -159,7 +180,7 @@ def expected_rows(sysd):
     for mt in expand(sysd):
         for ri, rn in enumerate(mt["res"]):
             for a in sysd["residues"][rn]["atoms"]:
-                rows.append((mt.get("resids", range(1, 10 ** 6))[ri], rn, a["name"]))
+                rows.append((mt.get("resids", range(1, 10 ** 6))[ri], shown(sysd, rn), a["name"]))
     return rows
 
 
@@ -180,7 +201,7 @@ def describe(sysd):
     return {"atypes": {k: v["sigma"] for k, v in sysd["atypes"].items()},
             "residues": {k: (v["kind"], len(v["atoms"])) for k, v in sysd["residues"].items()},
             "moltypes": [(m["name"], m["shape"], m["res"]) for m in sysd["moltypes"]],
-            "molecules": sysd["molecules"]}
+            "molecules": sysd["molecules"], "same_name": sysd.get("alias", {})}
 
 
 # ----------------------------------------------------------------------------- .gro io (own reader/writer)
